@@ -147,8 +147,12 @@ func sameFrames(a, b []frameIn) bool {
 	return true
 }
 
+// the type/topic combinations of the property, independent of the code under test: discovery (1) and MPC (2) messages
+// carry a 32-byte topic, every other type none
+func pinnedHasTopic(ty uint8) bool { return ty == 1 || ty == 2 }
+
 func legalFrame(f frameIn) bool {
-	if comm.VerifShouldHaveTopic(f.ty) {
+	if pinnedHasTopic(f.ty) {
 		return len(f.topic) == 32
 	}
 	return len(f.topic) == 0
@@ -159,7 +163,7 @@ var frameTypes = []uint8{0, 1, 2, 3, 7, 128, 255}
 func randLegalFrame(r *prng, size int) frameIn {
 	ty := frameTypes[r.intn(len(frameTypes))]
 	var topic []byte
-	if comm.VerifShouldHaveTopic(ty) {
+	if pinnedHasTopic(ty) {
 		topic = r.bytes(32)
 	}
 	return frameIn{ty, topic, r.bytes(size)}
@@ -176,6 +180,13 @@ func runFrames(r *prng, n int) {
 			emit(jMon{Kind: "mon", What: "panic", Ok: false, Detail: map[string]string{"where": "readMsg", "stream": hx(stream)}})
 		}
 		return fs, clean, pan
+	}
+
+	// 0. the reader's topic table against the property's
+	for ty := 0; ty < 256; ty++ {
+		if comm.VerifShouldHaveTopic(uint8(ty)) != pinnedHasTopic(uint8(ty)) {
+			emit(jMon{Kind: "mon", What: "topic presence table differs", Ok: false, Detail: map[string]interface{}{"type": ty, "reader_expects_topic": comm.VerifShouldHaveTopic(uint8(ty))}})
+		}
 	}
 
 	// 1. every type x topic-length combination, payload sizes around the small boundaries, one frame per connection
@@ -339,7 +350,7 @@ func runFrames(r *prng, n int) {
 		// a frame whose topic presence contradicts its type, followed by a legal frame: the reader must follow the table
 		ty := frameTypes[r.intn(len(frameTypes))]
 		f := frameIn{ty, r.bytes(32), r.bytes(r.intn(50))}
-		if comm.VerifShouldHaveTopic(ty) {
+		if pinnedHasTopic(ty) {
 			f.topic = nil
 		}
 		w, res, _ := writeFrames([]frameIn{f, randLegalFrame(r, r.intn(40))})
